@@ -52,21 +52,21 @@ theorem sum_count_eq_countP (col : List String) : ∀ (grp : List String), grp.N
         omega
 
 /-- index of the group holding a modality -/
-def groupIdx (comb : List (List String)) (v : String) : Nat := comb.findIdx (fun g => g.contains v)
+def groupIdx {α : Type} [DecidableEq α] (comb : List (List α)) (v : α) : Nat := comb.findIdx (fun g => g.contains v)
 
-theorem groupIdx_cons_self {g : List String} {rest : List (List String)} {v : String} (h : v ∈ g) :
+theorem groupIdx_cons_self {α : Type} [DecidableEq α] {g : List α} {rest : List (List α)} {v : α} (h : v ∈ g) :
     groupIdx (g :: rest) v = 0 := by
   unfold groupIdx
   simp [List.findIdx_cons, h]
 
-theorem groupIdx_cons_other {g : List String} {rest : List (List String)} {v : String} (h : v ∉ g) :
+theorem groupIdx_cons_other {α : Type} [DecidableEq α] {g : List α} {rest : List (List α)} {v : α} (h : v ∉ g) :
     groupIdx (g :: rest) v = groupIdx rest v + 1 := by
   unfold groupIdx
   simp [List.findIdx_cons, h]
 
 /-- with pairwise disjoint groups, the group index of a modality is `i` exactly when it belongs to
     the `i`-th group -/
-theorem groupIdx_eq_iff : ∀ (comb : List (List String)) (i : Nat) (hi : i < comb.length) (v : String),
+theorem groupIdx_eq_iff {α : Type} [DecidableEq α] : ∀ (comb : List (List α)) (i : Nat) (hi : i < comb.length) (v : α),
     comb.flatten.Nodup → (groupIdx comb v = i ↔ v ∈ comb[i])
   | [], i, hi, _, _ => by simp at hi
   | g :: rest, i, hi, v, hnd => by
@@ -96,7 +96,7 @@ theorem groupIdx_eq_iff : ∀ (comb : List (List String)) (i : Nat) (hi : i < co
         · intro h; have := this.2 h; omega
 
 /-- … and a covered modality has an index below the number of groups -/
-theorem groupIdx_lt (comb : List (List String)) (v : String) (h : v ∈ comb.flatten) : groupIdx comb v < comb.length := by
+theorem groupIdx_lt {α : Type} [DecidableEq α] (comb : List (List α)) (v : α) (h : v ∈ comb.flatten) : groupIdx comb v < comb.length := by
   unfold groupIdx
   apply List.findIdx_lt_length_of_exists
   obtain ⟨g, hg, hv⟩ := List.mem_flatten.1 h
